@@ -614,7 +614,43 @@ def indent(text, n=2):
     return "\n".join(" " * n + l for l in text.split("\n"))
 
 
+ELEMENT_TRANSLATED = ["new", "set_multiple", "increment", "merge_attr", "add_unique_child", "set_child_optional", "get_child",
+                      "get_child_mut", "remove_child", "contains_only_text", "compute_name_hints", "expand_name",
+                      "compute_struct_names", "to_serde_struct", "inner_to_serde_struct", "starts_with_xmlns", "add_unique"]
+# everything of src/element.rs (tests cut off) outside the bodies of the translated functions: the
+# imports, the struct, the four accessors, equality by name - pinned token by token
+ELEMENT_REST = ('use std :: collections :: { HashMap , HashSet , VecDeque } ; use crate :: { necessity :: { merge_necessity , Necessity } , '
+                'options :: SortBy , Options , } ; use convert_string :: ConvertString ; use identifier :: { Map , Type } ; # [ cfg ( test ) ] '
+                'pub mod macro_rule ; mod identifier ; # [ derive ( Clone , Debug ) ] pub struct Element < T > { pub name : T , pub text : Option < T > , '
+                'standalone : bool , count : u32 , attributes : Vec < Necessity < T > > , children : Vec < Necessity < Element < T > > > , '
+                'position : Option < usize > , } impl < T : std :: cmp :: PartialEq + std :: fmt :: Display + std :: fmt :: Debug > Element < T > { '
+                'pub <fn> pub fn formatted_name ( & self ) -> String { format ! ( "{}" , self . name ) . to_pascal_case ( ) } '
+                'pub fn standalone ( & self ) -> bool { self . standalone } pub <fn> pub fn count ( & self ) -> u32 { self . count } '
+                'pub <fn> pub <fn> pub <fn> pub <fn> pub <fn> pub <fn> pub <fn> '
+                'pub fn children ( & self ) -> & Vec < Necessity < Element < T > > > { & self . children } <fn> <fn> <fn> <fn> } '
+                'impl < T : std :: cmp :: PartialEq + std :: fmt :: Display + std :: fmt :: Debug + std :: clone :: Clone > Element < T > { pub <fn> <fn> } '
+                '<fn> impl < T : std :: cmp :: PartialEq > PartialEq for Element < T > { fn eq ( & self , other : & Self ) -> bool { '
+                'self . name == other . name } } <fn>')
+
+
+def check_element_rest(src):
+    m = re.search(r"#\[cfg\(test\)\]\s*mod\s+tests\b", src)
+    toks = tokenize(src[:m.start()] if m else src)
+    spans = sorted(find_fn(toks, f)[0::2] for f in ELEMENT_TRANSLATED)
+    rest, pos = [], 0
+    for a, b in spans:
+        if a < pos:
+            raise Refuse("the translated functions of src/element.rs are nested in an unexpected way")
+        rest += toks[pos:a] + ["<fn>"]
+        pos = b
+    rest += toks[pos:]
+    if " ".join(rest) != ELEMENT_REST:
+        raise Refuse("src/element.rs contains something beside the pinned imports, `struct Element`, its accessors, "
+                     "equality by name and the translated functions")
+
+
 def generate(src):
+    check_element_rest(src)
     m = re.search(r"#\[cfg\(test\)\]\s*mod\s+tests\b", src)
     if m:
         src = src[:m.start()]
